@@ -233,10 +233,26 @@ def r_metadata(db, rep):
                     sa = strip(a)
                     if sa["k"] == "UnaryOperator" and sa["op"] == "&":
                         lenvars.add(access_path(c, sa["sub"]))
-            indirect = [w for lv, w in ml_writes if w.get("rhs") is not None and const_value(w["rhs"]) is None and
-                        not any(access_path(c, x) in lenvars for x in walk(w["rhs"]) if x["k"] == "DeclRefExpr") and
-                        access_path(c, w["rhs"]) is None or (w.get("rhs") is not None and (access_path(c, w["rhs"]) or ("",))[0] == "local"
-                                                              and access_path(c, w["rhs"]) not in lenvars)]
+            # an intermediate counts only if, within one pass from a read to this write (no other read in between), it has been
+            # given a value computed from the length just read - `block_max = max(block_max, len)` - and not if it still holds what
+            # an earlier iteration left (`lenPrev`)
+            indirect = []
+            for lv, w in ml_writes:
+                rhs = w.get("rhs")
+                if rhs is None or const_value(rhs) is not None or cfg.position(w) is None:
+                    continue
+                if any(access_path(c, x) in lenvars for x in walk(rhs) if x["k"] == "DeclRefExpr"):
+                    continue
+                inter = {access_path(c, x) for x in walk(rhs) if x["k"] == "DeclRefExpr" and x.get("dk") == "local"} - lenvars
+                for lv2, w2 in writes:
+                    if access_path(c, lv2) not in inter or w2.get("rhs") is None or cfg.position(w2) is None:
+                        continue
+                    if not any(access_path(c, x) in lenvars for x in walk(w2["rhs"]) if x["k"] == "DeclRefExpr"):
+                        continue
+                    if any(np is not None and cfg.path_exists(np, [cfg.position(w2)], avoid=[q for q in nposs if q is not None and q != np]) for np in nposs) and \
+                            cfg.path_exists(cfg.position(w2), [cfg.position(w)], avoid=[q for q in nposs if q is not None]):
+                        indirect.append(w)
+                        break
             if not ml_sites and indirect:
                 rep.notes.append("%s: maxlength is raised from an intermediate value (line %s), not directly from the length just read: undecided" % (
                     c.qn, indirect[0].get("l")))
@@ -419,7 +435,7 @@ def r_selectrange(db, rep):
                     continue
                 iv = access_path(f, cond["lhs"])
                 uses = [x for x in walk(n["body"]) if x["k"] == "CXXMemberCallExpr" and callee_name(x) == "select1" and
-                        x.get("args") and access_path(f, x["args"][0]) == iv]
+                        x.get("args") and any(y["k"] == "DeclRefExpr" and access_path(f, y) == iv for y in walk(x["args"][0]))]
                 if not uses:
                     continue
                 init = None
